@@ -117,7 +117,8 @@ def or_on_path(sid):
     result = []
     for sid in found:
         if not sid in result:
-            result.append(sid.replace(_start + sip, ""))
+            # only the leading marker is ours (a value may contain the same text)
+            result.append(sid[len(_start + sip):] if sid.startswith(_start + sip) else sid)
 
     # no type check needed
     return result
